@@ -1167,7 +1167,7 @@ func ruleV3b(c *Ctx) *RuleResult {
 
 func ruleV1b(c *Ctx) *RuleResult {
 	r := &RuleResult{Floor: 2, FloorWhat: "URI constraints of EXT-X-MEDIA"}
-	fn := c.Method("pkg/playlist", "MultivariantRendition", "unmarshal")
+	fn := c.codecFuncOf("MultivariantRendition", "unmarshal")
 	uriF := c.Field("pkg/playlist", "MultivariantRendition", "URI")
 	typF := c.Field("pkg/playlist", "MultivariantRendition", "Type")
 	if fn == nil || uriF == nil || typF == nil {
